@@ -13,21 +13,24 @@ Supers(cls) ==
     [] cls = "R"    -> {"R"}
     [] OTHER -> {cls}
 
-\* s = [reg : Seq([idx, cls]), next : Nat, inits : Nat]
+\* s = [reg : Seq([idx, cls]), next : Nat, inits : Nat, decl : Seq(type)]
+\*   decl  = types of the no-domain variables declared so far (slot k = k-th declaration)
 \*   next  = index the next concretely constructed instance gets
 \*   inits = how often the hand-written __init__ of Leaf has run
-InitS == [reg |-> <<>>, next |-> 1, inits |-> 0]
+InitS == [reg |-> <<>>, next |-> 1, inits |-> 0, decl |-> <<>>]
 
 RECURSIVE AppendN(_, _, _, _)
 AppendN(reg, next, cls, n) == IF n = 0 THEN reg ELSE AppendN(Append(reg, [idx |-> next, cls |-> cls]), next + 1, cls, n - 1)
 
 Apply(ev, s) ==
-  CASE ev.op = "construct" -> [reg |-> Append(s.reg, [idx |-> s.next, cls |-> ev.cls]), next |-> s.next + 1,
-                               inits |-> s.inits + (IF ev.cls = "Leaf" THEN 1 ELSE 0)]
+  CASE ev.op = "construct" -> [s EXCEPT !.reg = Append(@, [idx |-> s.next, cls |-> ev.cls]), !.next = @ + 1,
+                                        !.inits = @ + (IF ev.cls = "Leaf" THEN 1 ELSE 0)]
     [] ev.op = "symconstruct" -> s                     \* registers nothing, runs no initialisation
     [] ev.op = "infer" -> [s EXCEPT !.reg = AppendN(s.reg, s.next, "P", ev.n), !.next = s.next + ev.n]
     [] ev.op = "clear" -> [s EXCEPT !.reg = <<>>]
     [] ev.op = "query" -> s
+    [] ev.op = "declare" -> [s EXCEPT !.decl = Append(@, ev.T)]      \* let(T) now, evaluated later (once)
+    [] ev.op = "evalvar" -> s
 
 Expected(T, s) == {s.reg[j].idx : j \in {k \in 1..Len(s.reg) : T \in Supers(s.reg[k].cls)}}
 =============================================================================
